@@ -1,7 +1,21 @@
 FIX_COMMITS = []
 TODO = 'check not built yet in this revision (work in progress; see DESIGN.md section 7 for the planned solver-based check)'
 NOT_APPLICABLE = {('C%02d' % i): TODO for i in range(1, 21)}
+R_NOTE = ('R-model: floats are mathematical reals, float literals are the decimal rationals written in the source, '
+          'transcendental functions are uninterpreted with sound axiom instances; IEEE rounding is outside the claim. ')
 CHECKS = {
+    'C06': {
+        'text': 'Bounded symbolic execution + SMT: conform7 (real source) runs on a symbolic point, symbolic parameter set '
+                '(|t|<=1000 m, |s|<=100 ppm, |r|<=59.9"), symbolic uncertainties and symbolic symmetric covariance, also as a '
+                '3-call sequence with two different same-labelled sets; outputs are proved identical to the Technical-Manual '
+                'formula and to J Q J^T derived from the reference formula (z3, unsat of the negation); rounding lemmas '
+                '(13-decimal HP parsing, <1 um) are separate LIRA/NRA queries; all 120 shipped sets are executed concretely on a '
+                'symbolic point in catalogue order and reversed, their affine coefficients and set-then-negation closure decided as QF_LRA.',
+        'design_ref': 'DESIGN.md section 7 C06',
+        'note': R_NOTE + 'hp2dec is summarised by an uninterpreted function for symbolic sets (its own correctness is C08); '
+                'PSD follows from the proved J Q J^T form.',
+        'technique': 'symbolic execution of the real Python source + SMT (z3 NRA/LRA/LIRA), witness replay',
+    },
     'C11': {
         'text': 'Bounded symbolic execution + SMT: Transformation.__neg__, __add__ and iers2trans are executed on fully '
                 'symbolic parameter sets (arbitrary reals) and a symbolic day offset; the 120 catalogue constants are lifted '
